@@ -31,7 +31,15 @@ RULE = ("Hypothesis draws, per polynomial family, an ascending order list (conti
         "every argument (order list, coordinates) is compared with a copy taken before the call; the result is kept, the "
         "routine is called with other coordinates (that result is spot-checked too) and the kept result must not have "
         "changed; then the kept result is overwritten in place and the routine called again with the original arguments - "
-        "it must return the same modes.  Non-trivial = gapped "
+        "it must return the same modes.  Value pattern of the coordinate arrays (drawn, about one case in three; for two-coordinate "
+        "families on the first, the second or both arrays; for xy meshgrids on the axis vectors): the array is cut into slices along a drawn axis and the leading / "
+        "trailing 1..4 slices are copies of the first / last one (edge-padded arrays, a grid larger than the aperture clipped to the interval, a repeated first "
+        "sample), all slices equal (the X of a meshgrid), all but the last / first equal, slices in equal pairs; optionally every slice constant (the Y of a meshgrid, "
+        "so that equal leading rows are a clipped Y).  Boolean options (norm= of zernike_nm_seq / zernike_nm_der_seq, cartesian_grid= of xy_seq) are given as the "
+        "object True / False, as a numpy bool (element of a boolean array, result of comparing numpy scalars) and as 1 / 0 - the same object to the sequence and to "
+        "the single-order routine.  Order lists also as one-shot iterables (generator expression, iter(list)) for the one-index routines whose unchanged code walks "
+        "ns once (all but the Chebyshev 2nd / 4th kind sequences).  Jacobi pairs also nearly equal / next to the Chebyshev and Legendre values (relative 1e-12 .. 1e-4).  "
+        "Non-trivial = gapped "
         "list, or list not starting at 0/1, or x.ndim != 1, or a dimension of x equal to len(ns), or dtype not float64, or "
         "non-C layout, or a history, or coordinates beyond the orthogonality interval (two-index: list "
         "not sorted or |m| repeated, or ndim != 1, or such a dimension, or dtype / layout / history as above).  Distinct = distinct canonical JSON.")
@@ -122,12 +130,22 @@ def _span(fam, lo, hi, span, dtype):
 # recurrence); Laguerre alpha > -1; Dickson alpha small real
 _AB = [-0.5, 0.5, 0, 1, 2, 4, 1.5, -0.75, 0.25, 3, 5.5]
 _NEXT_TO = [0.0, 5.5e-17, -1.1e-16, 2.2e-16, 1e-15, 1e-12, -1e-9, 1e-6]
+_NEARLY = [1e-4, -3e-5, 1e-5, -3e-6, 1e-6, -1e-7, 1e-9, -1e-12]      # relative distance from an equality-defined special case
+_TINY = [0.0, 1e-9, -1e-9, 3e-9, -5e-9, 1e-8]
 PARAMS = {
     'jacobi': st.one_of(st.tuples(st.sampled_from(_AB), st.sampled_from(_AB)).map(list),
                         st.tuples(U.nice_float(-0.95, 6.0), U.nice_float(-0.95, 6.0)).map(list),
                         # on and next to the special lines alpha+beta = 0 and alpha+beta = -1 of the recurrence
                         st.tuples(U.nice_float(-0.95, 0.95), st.sampled_from(_NEXT_TO)).map(lambda t: [t[0], -t[0] + t[1]]),
-                        st.tuples(U.nice_float(-0.95, -0.05), st.sampled_from(_NEXT_TO)).map(lambda t: [t[0], -1.0 - t[0] + t[1]])),
+                        st.tuples(U.nice_float(-0.95, -0.05), st.sampled_from(_NEXT_TO)).map(lambda t: [t[0], -1.0 - t[0] + t[1]]),
+                        # nearly, but not exactly, equal parameters (next to the ultraspherical case alpha = beta), and pairs next to the
+                        # Chebyshev half-integer / Legendre values: ordinary pairs for both routines
+                        st.tuples(st.one_of(st.sampled_from(_AB), U.nice_float(-0.95, 6.0)), st.sampled_from(_NEARLY), st.booleans()).map(
+                            lambda t: [t[0], t[0] * (1 + t[1]) + (t[1] if t[0] == 0 else 0.0)][::1 if t[2] else -1]),
+                        st.tuples(st.sampled_from([-0.5, 0.5, 0]), st.sampled_from([-0.5, 0.5, 0]), st.sampled_from(_NEARLY), st.sampled_from(_NEARLY)).map(
+                            lambda t: [t[0] + t[2], t[1] - t[3]]),
+                        # next to Legendre's (0, 0) by less than numpy.isclose's default absolute tolerance
+                        st.tuples(st.sampled_from(_TINY), st.sampled_from(_TINY)).filter(lambda t: t != (0.0, 0.0)).map(list)),
     'laguerre': st.one_of(st.sampled_from([0, 1, 2, 0.5, -0.5, 3.25, -1 + 1e-9, 1e-16, -1e-16]), U.nice_float(-0.95, 6.0)).map(lambda a: [a]),
     'dickson': st.one_of(st.sampled_from([0, 1, -1, 2, 0.5, 1e-16, -1e-16, 1 + 2.2e-16]), U.nice_float(-2.0, 2.0)).map(lambda a: [a]),
     'dickson-int': st.sampled_from([0, 1, -1, 2, -2]).map(lambda a: [a]),
@@ -204,11 +222,68 @@ def resolve_shape(spec, k):
     return tuple(dims)
 
 
-def coords(seed, shape, lo, hi, dtype, salt=0):
+# Value patterns of a coordinate array (not its shape or type).  The array is cut into slices along one axis and the slices are
+# re-used: the leading / trailing slices are copies of the first / last one (np.pad(..., mode='edge'); the coordinate of a grid larger than
+# the aperture clipped to the interval of orthogonality; an axis whose first sample is repeated), all slices are equal (the X of a
+# meshgrid), all but the last / the first are equal, slices come in equal pairs; 'flat' additionally makes every slice constant (the Y of a
+# meshgrid, so that head / tail on it is a clipped Y).  For a 1-D array the slices are its elements.  Every value is still one of the
+# points drawn inside the family's range, so tolerances are unaffected.
+PATTERN_KINDS = ['head', 'head', 'tail', 'head+tail', 'head+tail', 'all-equal', 'all-but-last', 'all-but-last', 'all-but-first', 'pairs']
+FREE = ['free', 0, 2, False]
+
+
+def patterns():
+    drawn = st.tuples(st.sampled_from(PATTERN_KINDS), st.integers(0, 2), st.integers(2, 4), st.booleans()).map(list)
+    return st.one_of(st.just(FREE), drawn)        # measured: about one case in three carries a pattern
+
+
+def impose(x, pat):
+    """x with the value pattern pat = [kind, axis, count, flat] imposed (a new C-ordered array of the same shape and dtype)"""
+    kind, ax, c, flat = pat[0], int(pat[1]), int(pat[2]), bool(pat[3])
+    x = np.asarray(x)
+    if kind == 'free' or x.ndim == 0:
+        return x
+    ax = ax % x.ndim
+    n = x.shape[ax]
+    c = max(1, min(c, n - 1))          # where the axis is long enough at least one slice stays different
+    i = np.arange(n)
+    if kind in ('head', 'head+tail'):
+        i = np.where(i < c, 0, i)
+    if kind in ('tail', 'head+tail'):
+        i = np.where(i >= n - c, n - 1, i)
+    if kind == 'all-equal':
+        i = np.zeros(n, dtype=int)
+    elif kind == 'all-but-last':
+        i = np.where(i < n - 1, 0, i)
+    elif kind == 'all-but-first':
+        i = np.where(i > 0, min(1, n - 1), i)
+    elif kind == 'pairs':
+        i = i - i % 2
+    if flat and x.ndim > 1:
+        first = tuple(slice(None) if d == ax else slice(0, 1) for d in range(x.ndim))
+        x = np.broadcast_to(x[first], x.shape)
+    return np.ascontiguousarray(np.take(x, i, axis=ax))
+
+
+def pattern_label(pat, shape):
+    if pat[0] == 'free' or len(shape) == 0:
+        return 'values:free'
+    ax = int(pat[1]) % len(shape)
+    if shape[ax] < 2:
+        return 'values:free'
+    return 'values:%s:along-%s%s' % (pat[0], 'rows' if ax == 0 else 'last-axis' if ax == len(shape) - 1 else 'middle-axis',
+                                       ':constant-slices' if pat[3] and len(shape) > 1 else '')
+
+
+def coords(seed, shape, lo, hi, dtype, salt=0, pat=FREE):
     """points inside [lo,hi] from the drawn integer; ~1 in 8 entries is pinned to an end point or the middle.
 
     complex dtypes: the same real parts plus an imaginary part in [-0.3, 0.3] (exactly zero for ~1 entry in 4);
-    integer dtypes: the integers of [lo, hi]."""
+    integer dtypes: the integers of [lo, hi].  pat: the value pattern imposed on the array (see impose)."""
+    return impose(_coords(seed, shape, lo, hi, dtype, salt), pat)
+
+
+def _coords(seed, shape, lo, hi, dtype, salt):
     r = U.rng_of(seed, salt)
     x = r.uniform(lo, hi, shape)
     pin = r.integers(0, 24, shape)
@@ -254,6 +329,23 @@ def _cmp(got, want, ref, dtype, bucket, what):
     return U.check_close(got, want, _tol(dtype), bucket, what, atol=_tol(dtype) * ref)
 
 
+def _with_radial_amplitude(ref, dtype, *amps):
+    """the reference amplitude of a mode with an azimuthal factor, in single precision: |mode| and |radial part| at the given radii.
+
+    In single precision the argument m*t of the azimuthal factor carries a rounding error of eps32 |m t|, i.e. the mode one of
+    eps32 |m t| |radial part|, whatever the value of cos / sin there; the sequence routines form m*t in double precision when the
+    orders come as an int64 array and the single-order routines in single, so the two differ by that much where the azimuthal factor
+    is next to a zero (t = 2 pi) and the radial part is large (a complex radius beyond 1).  Found by a thorough run: Q2d_seq(11, -3)
+    at r = 1 + 0.27j, t = float32(2 pi), |radial part| = 9e3, all other samples of order 1."""
+    if dtype not in SINGLE:
+        return ref
+    parts = [np.ravel(np.abs(np.asarray(ref)))]
+    for a in amps:
+        a = np.ravel(np.abs(np.asarray(a)))
+        parts.append(a[np.isfinite(a)])
+    return np.concatenate(parts)
+
+
 def _shape_class(shape, k):
     cls = 'ndim%d' % len(shape)
     if shape and shape[0] == k:
@@ -292,6 +384,10 @@ def _as_orders(ns, how):
         return np.asarray(ns, dtype=np.int64)
     if how == 'ndarray-int32':
         return np.asarray(ns, dtype=np.int32)
+    if how == 'generator':
+        return (n for n in list(ns))
+    if how == 'iterator':
+        return iter(list(ns))
     return list(ns)
 
 
@@ -318,6 +414,11 @@ def _unchanged(ctx, now, before, bucket, what):
 PYFLOAT_FAMILIES = ('hermite_He', 'hermite_H', 'hermite_He_der', 'hermite_H_der')
 HISTORY = ['none', 'none', 'none', 'single-first', 'other-ns', 'other-x', 'other-params']
 ORDERS_AS = ['list', 'list', 'list', 'tuple', 'range', 'ndarray', 'ndarray-int32']
+# 'ns : iterable of int': one-shot iterables (a generator expression, iter(list), the keys view of a dict) are walked exactly once by the
+# unchanged one-index routines.  Not given to the Chebyshev 2nd / 4th kind sequences, whose unchanged code does arithmetic on ns itself
+# (TypeError for anything that is not a list / array), nor to the two-index routines, which take len(nms) - reported, not asserted.
+ONE_SHOT = ['generator', 'iterator']
+SIZED_ONLY = ('cheby2', 'cheby4', 'cheby2_der', 'cheby4_der')
 
 
 # ---- one-index families --------------------------------------------------------------------------------
@@ -333,8 +434,8 @@ def strat_one_index(group):
                 'family': st.just(fam), 'ns': order_lists(min(N, 8), 8) if sh == BIG else order_lists(N, LONG[tier]),
                 'params': _param_strategy(fam, dtype), 'shape': st.just(sh), 'dtype': st.just(dtype),
                 'layout': U.layouts, 'x0d': st.sampled_from(['array', 'npscalar'] + (['pyfloat'] if fam in PYFLOAT_FAMILIES else [])),
-                'ns_as': st.sampled_from(ORDERS_AS),
-                'xkw': st.booleans(), 'history': st.sampled_from(HISTORY), 'seed': U.seeds, 'span': st.sampled_from(SPANS)}))
+                'ns_as': st.sampled_from(ORDERS_AS + ([] if fam in SIZED_ONLY else ONE_SHOT)),
+                'pattern': patterns(), 'xkw': st.booleans(), 'history': st.sampled_from(HISTORY), 'seed': U.seeds, 'span': st.sampled_from(SPANS)}))
         return st.sampled_from(GROUPS[group]).flatmap(lambda fam: st.tuples(st.just(fam), _dtype_strategy(fam))).flatmap(rest)
     return build
 
@@ -350,16 +451,24 @@ def check_one_index(case, ctx):
     history, xkw = case.get('history', 'none'), bool(case.get('xkw', False))
     lo, hi = _span(fam, lo, hi, case.get('span', 'domain'), dtype)
     span = 'beyond' if (lo, hi) != _families()[fam][3:] else 'domain'
-    x = present(coords(case['seed'], shape, lo, hi, dtype), layout, x0d)
+    pat = case.get('pattern', FREE)
+    vcls = pattern_label(pat, shape)
+    if ns_as in ONE_SHOT and fam in SIZED_ONLY:
+        ns_as = 'list'
+    x = present(coords(case['seed'], shape, lo, hi, dtype, pat=pat), layout, x0d)
     scls, lcls = _shape_class(shape, k), _list_class(ns)
     gapped = ns != list(range(ns[0], ns[0] + k))
     ctx.nt(gapped or ns[0] > 1 or len(shape) != 1 or k in shape or dtype != 'float64' or history != 'none'
-           or (layout != 'C' and len(shape) > 0) or span != 'domain')
+           or (layout != 'C' and len(shape) > 0) or span != 'domain' or vcls != 'values:free' or ns_as in ONE_SHOT)
     ctx.label(fam, scls, lcls, dtype, 'maxn>=50' if ns[-1] >= 50 else ('maxn>=20' if ns[-1] >= 20 else 'maxn<20'),
               'layout:' + (layout if shape else x0d), 'ns_as:' + ns_as, 'history:' + history, 'x-keyword' if xkw else 'x-positional',
-              'big' if int(np.prod(shape)) > 2 ** 16 else 'small', 'span:' + span)
+              'big' if int(np.prod(shape)) > 2 ** 16 else 'small', 'span:' + span, vcls)
     bsuf = '' if span == 'domain' else ':beyond-orthogonality-interval'
     scls += bsuf
+    if vcls != 'values:free':
+        scls += ':' + vcls
+    if ns_as in ONE_SHOT:
+        lcls += ':orders-as-' + ns_as
 
     def run(orders, pars, xx):
         if xkw:
@@ -368,11 +477,11 @@ def check_one_index(case, ctx):
 
     # history inside the process: an earlier call that differs in exactly one respect
     if history == 'single-first' and _single(dtype):
-        run(_as_orders(ns, ns_as), params, present(coords(case['seed'], shape, lo, hi, _single(dtype)), layout, x0d))
+        run(_as_orders(ns, ns_as), params, present(coords(case['seed'], shape, lo, hi, _single(dtype), pat=pat), layout, x0d))
     elif history == 'other-ns':
         run(_as_orders(_other_orders(ns), ns_as), params, x)
     elif history == 'other-x':
-        run(_as_orders(ns, ns_as), params, present(coords(case['seed'], shape, lo, hi, dtype, salt=5), layout, x0d))
+        run(_as_orders(ns, ns_as), params, present(coords(case['seed'], shape, lo, hi, dtype, salt=5, pat=pat), layout, x0d))
     elif history == 'other-params' and params:
         run(_as_orders(ns, ns_as), [p + 1 for p in params], x)
 
@@ -380,19 +489,24 @@ def check_one_index(case, ctx):
     ns_arg = _as_orders(ns, ns_as)
     out = run(ns_arg, params, x)
     _unchanged(ctx, x, x_before, '%s_seq:argument-modified:x' % fam, 'the coordinate array')
-    ctx.require([int(n) for n in ns_arg] == ns, '%s_seq:argument-modified:ns' % fam, 'the order list %r became %r' % (ns, list(ns_arg)))
+    if ns_as not in ONE_SHOT:
+        ctx.require([int(n) for n in ns_arg] == ns, '%s_seq:argument-modified:ns' % fam, 'the order list %r became %r' % (ns, list(ns_arg)))
+
+    def again():
+        # a one-shot iterable is used up by the call it was given to: every later call gets a new one; any other container is given again
+        return _as_orders(ns, ns_as) if ns_as in ONE_SHOT else ns_arg
     ctx.require(isinstance(out, np.ndarray), '%s_seq:type' % fam, 'returned %s, not an ndarray' % type(out).__name__)
     U.check_shape(out, (k,) + shape, '%s_seq:%s:%s' % (fam, scls, lcls), '%s_seq(%r) on x of shape %s' % (fam, ns, shape))
     kept = np.array(out, copy=True)
 
     # a later call with other coordinates must not reach into the result already handed out ...
-    x2 = present(coords(case['seed'], shape, lo, hi, dtype, salt=7), layout, x0d)
-    out2 = np.asarray(run(ns_arg, params, x2))
+    x2 = present(coords(case['seed'], shape, lo, hi, dtype, salt=7, pat=pat), layout, x0d)
+    out2 = np.asarray(run(again(), params, x2))
     U.check_equal(out, kept, '%s_seq:result-overwritten' % fam, 'the result of %s_seq(%r) after a second call at other coordinates' % (fam, ns))
     # ... and the caller may do what it likes with its result
     if out.flags.writeable:
         out[...] = 7
-    out3 = np.asarray(run(ns_arg, params, x))
+    out3 = np.asarray(run(again(), params, x))
     U.check_shape(out3, (k,) + shape, '%s_seq:aliased-state:%s' % (fam, scls), 'repeated %s_seq(%r) on x of shape %s' % (fam, ns, shape))
     U.check_shape(out2, (k,) + shape, '%s_seq:%s:%s' % (fam, scls, lcls), '%s_seq(%r) on other x of shape %s' % (fam, ns, shape))
 
@@ -456,6 +570,31 @@ def _polar_ref(rmax=1.0):
 
 
 PAIRS_AS = ['tuples', 'tuples', 'lists', 'tuple-of-tuples', 'ndarray']
+# a boolean option as callers hold it: the object True / False, a numpy bool (an element of a boolean array, the result of comparing numpy
+# scalars), 1 / 0.  The sequence routine and the single-order routine are given the very same object.
+FLAG_KINDS = ['bool', 'bool', 'bool', 'np.bool_', 'comparison', 'int']
+PAT_ON = ['both', 'first', 'second']
+
+
+def flag_as(value, how):
+    value = bool(value)
+    if how == 'np.bool_':
+        return np.array([True, False])[0 if value else 1]
+    if how == 'comparison':
+        return np.float64(1.0) > 0 if value else np.float64(1.0) < 0
+    if how == 'int':
+        return 1 if value else 0
+    return value
+
+
+def _pair_patterns(case, shape):
+    """(pattern of the first coordinate array, of the second, class label) of a two-coordinate case"""
+    pat, on = case.get('pattern', FREE), case.get('pat_on', 'both')
+    lab = pattern_label(pat, shape)
+    if lab == 'values:free':
+        return FREE, FREE, lab
+    return (pat if on != 'second' else FREE), (pat if on != 'first' else FREE), lab + ':' + on
+
 HISTORY2 = ['none', 'none', 'none', 'single-first', 'other-pairs', 'other-coords']
 
 
@@ -516,7 +655,8 @@ def strat_zernike(tier):
     return st.sampled_from(FLOATS).flatmap(lambda dtype: st.fixed_dictionaries({
         'fn': st.sampled_from(['zernike_nm_seq', 'zernike_nm_der_seq']), 'nms': zernike_pairs(NMAX_SINGLE if dtype in SINGLE else N), 'norm': st.booleans(),
         'norm_kw': st.booleans(), 'shape': shape_spec(D), 'dtype': st.just(dtype), 'layout': U.layouts,
-        'pairs_as': st.sampled_from(PAIRS_AS), 'history': st.sampled_from(HISTORY2), 'seed': U.seeds, 'span': st.sampled_from(SPANS)}))
+        'pairs_as': st.sampled_from(PAIRS_AS), 'history': st.sampled_from(HISTORY2), 'seed': U.seeds, 'span': st.sampled_from(SPANS),
+        'norm_as': st.sampled_from(FLAG_KINDS), 'pattern': patterns(), 'pat_on': st.sampled_from(PAT_ON)}))
 
 
 def check_zernike(case, ctx):
@@ -531,19 +671,28 @@ def check_zernike(case, ctx):
 
     span = case.get('span', 'domain')
     rmax = RADIUS_BEYOND if span == 'beyond' else 1.0
+    pat_r, pat_t, vcls = _pair_patterns(case, shape)
+    norm_as = case.get('norm_as', 'bool')
 
     def make_coords(dt, salt):
-        return (present(coords(case['seed'], shape, 0.0, rmax, dt, salt=1 + salt), layout, 'array'),
-                present(coords(case['seed'], shape, 0.0, 2 * np.pi, dt, salt=2 + salt), layout, 'array'))
+        return (present(coords(case['seed'], shape, 0.0, rmax, dt, salt=1 + salt, pat=pat_r), layout, 'array'),
+                present(coords(case['seed'], shape, 0.0, 2 * np.pi, dt, salt=2 + salt, pat=pat_t), layout, 'array'))
     scls = _shape_class(shape, k)
     pcls = _pair_class(case['nms'])
-    ctx.nt('unsorted' in pcls or 'repeated|m|' in pcls or len(shape) != 1 or k in shape or span != 'domain')
-    ctx.label(case['fn'], scls, 'norm=%s' % case['norm'], 'span:' + span, *pcls)
+    ctx.nt('unsorted' in pcls or 'repeated|m|' in pcls or len(shape) != 1 or k in shape or span != 'domain' or vcls != 'values:free' or norm_as != 'bool')
+    ctx.label(case['fn'], scls, 'norm=%s' % case['norm'], 'span:' + span, vcls, 'norm-as:' + norm_as, *pcls)
     if span != 'domain':
         scls += ':beyond-unit-disc'
+    if vcls != 'values:free':
+        scls += ':' + vcls
     ctx.label('maxn>=30' if max(n for n, _ in nms) >= 30 else 'maxn<30')
     _two_index_labels(ctx, dtype, layout, pairs_as, history, shape)
     kw = {'norm': case['norm']} if (case['norm_kw'] or not case['norm']) else {}
+    ncls = 'norm=%s' % case['norm']
+    if norm_as != 'bool':
+        # the same flag object for the sequence routine and for the single-order routine
+        kw = {'norm': flag_as(case['norm'], norm_as)}
+        ncls += ':given-as-' + norm_as
     rref, tref = _polar_ref(rmax)
     other = [(n + 2, m) for n, m in nms]
     spot = int(case['seed']) % k
@@ -555,9 +704,11 @@ def check_zernike(case, ctx):
         for i, (n, m) in enumerate(nms):
             want = np.asarray(_guard(ctx, scls, P.zernike_nm, n, m, r, t, **kw))
             ref = _guard(ctx, 'ref', P.zernike_nm, n, m, rref, tref, **kw)
-            _cmp(kept[i], want, ref, dtype, 'zernike_nm_seq:%s:norm=%s' % (scls, case['norm']),
+            if m != 0 and dtype in SINGLE:
+                ref = _with_radial_amplitude(ref, dtype, _guard(ctx, 'ref', P.zernike_nm, n, abs(m), r, 0 * t, **kw), _guard(ctx, 'ref', P.zernike_nm, n, abs(m), r2, 0 * t2, **kw))
+            _cmp(kept[i], want, ref, dtype, 'zernike_nm_seq:%s:%s' % (scls, ncls),
                  'zernike_nm_seq(%r)[%d] vs zernike_nm(%d,%d) r.shape=%s %s %s' % (nms, i, n, m, shape, dtype, layout))
-            _cmp(out3[i], want, ref, dtype, 'zernike_nm_seq:aliased-state:norm=%s' % case['norm'],
+            _cmp(out3[i], want, ref, dtype, 'zernike_nm_seq:aliased-state:%s' % ncls,
                  'zernike_nm_seq(%r)[%d] vs zernike_nm(%d,%d), called again after the caller overwrote the first result' % (nms, i, n, m))
             if i == spot:
                 _cmp(out2[i], np.asarray(_guard(ctx, scls, P.zernike_nm, n, m, r2, t2, **kw)), ref, dtype, 'zernike_nm_seq:second-call',
@@ -570,8 +721,11 @@ def check_zernike(case, ctx):
         for i, (n, m) in enumerate(nms):
             dr, dt = _guard(ctx, scls, P.zernike_nm_der, n, m, r, t, **kw)
             refs = _guard(ctx, 'ref', P.zernike_nm_der, n, m, rref, tref, **kw)
+            if m != 0 and dtype in SINGLE:
+                refs = (_with_radial_amplitude(refs[0], dtype, _guard(ctx, 'ref', P.zernike_nm_der, n, abs(m), r, 0 * t, **kw)[0], _guard(ctx, 'ref', P.zernike_nm_der, n, abs(m), r2, 0 * t2, **kw)[0]),
+                        _with_radial_amplitude(refs[1], dtype, abs(m) * _guard(ctx, 'ref', P.zernike_nm, n, abs(m), r, 0 * t, **kw), abs(m) * _guard(ctx, 'ref', P.zernike_nm, n, abs(m), r2, 0 * t2, **kw)))
             for j, (want, nm) in enumerate(((dr, 'd/dr'), (dt, 'd/dt'))):
-                _cmp(kept[i, j], want, refs[j], dtype, 'zernike_nm_der_seq:%s:%s:norm=%s' % (nm, scls, case['norm']),
+                _cmp(kept[i, j], want, refs[j], dtype, 'zernike_nm_der_seq:%s:%s:%s' % (nm, scls, ncls),
                      'zernike_nm_der_seq(%r)[%d,%d] vs zernike_nm_der(%d,%d) %s r.shape=%s %s %s' % (nms, i, j, n, m, nm, shape, dtype, layout))
                 _cmp(out3[i, j], want, refs[j], dtype, 'zernike_nm_der_seq:aliased-state:%s' % nm,
                      'zernike_nm_der_seq(%r)[%d,%d] vs zernike_nm_der(%d,%d), called again after the caller overwrote the first result' % (nms, i, j, n, m))
@@ -586,7 +740,8 @@ def strat_q2d(tier):
     N, M = {'quick': (30, 16), 'thorough': (60, 30)}[tier]
     return st.sampled_from(FLOATS).flatmap(lambda dtype: st.fixed_dictionaries({
         'nms': q2d_pairs(14, 10) if dtype in SINGLE else q2d_pairs(N, M), 'shape': shape_spec(DMAX[tier]), 'dtype': st.just(dtype),
-        'layout': U.layouts, 'pairs_as': st.sampled_from(PAIRS_AS), 'history': st.sampled_from(HISTORY2), 'seed': U.seeds, 'span': st.sampled_from(SPANS)}))
+        'layout': U.layouts, 'pairs_as': st.sampled_from(PAIRS_AS), 'history': st.sampled_from(HISTORY2), 'seed': U.seeds, 'span': st.sampled_from(SPANS),
+        'pattern': patterns(), 'pat_on': st.sampled_from(PAT_ON)}))
 
 
 def check_q2d(case, ctx):
@@ -601,18 +756,21 @@ def check_q2d(case, ctx):
 
     span = case.get('span', 'domain')
     rmax = RADIUS_BEYOND if span == 'beyond' else 1.0
+    pat_r, pat_t, vcls = _pair_patterns(case, shape)
 
     def make_coords(dt, salt):
-        return (present(coords(case['seed'], shape, 0.0, rmax, dt, salt=1 + salt), layout, 'array'),
-                present(coords(case['seed'], shape, 0.0, 2 * np.pi, dt, salt=2 + salt), layout, 'array'))
+        return (present(coords(case['seed'], shape, 0.0, rmax, dt, salt=1 + salt, pat=pat_r), layout, 'array'),
+                present(coords(case['seed'], shape, 0.0, 2 * np.pi, dt, salt=2 + salt, pat=pat_t), layout, 'array'))
     scls = _shape_class(shape, k)
     pcls = _pair_class(case['nms'])
     ms = [m for _, m in nms]
     content = ('m0' if 0 in ms else '') + ('cos' if any(m > 0 for m in ms) else '') + ('sin' if any(m < 0 for m in ms) else '')
-    ctx.nt('unsorted' in pcls or 'repeated|m|' in pcls or len(shape) != 1 or k in shape or span != 'domain')
-    ctx.label(scls, 'content:' + content, 'span:' + span, *pcls)
+    ctx.nt('unsorted' in pcls or 'repeated|m|' in pcls or len(shape) != 1 or k in shape or span != 'domain' or vcls != 'values:free')
+    ctx.label(scls, 'content:' + content, 'span:' + span, vcls, *pcls)
     if span != 'domain':
         scls += ':beyond-unit-disc'
+    if vcls != 'values:free':
+        scls += ':' + vcls
     ctx.label('maxn>=15' if max(n for n, _ in nms) >= 15 else 'maxn<15')
     _two_index_labels(ctx, dtype, layout, pairs_as, history, shape)
     other = [(n + 1, -m) for n, m in nms]
@@ -625,6 +783,8 @@ def check_q2d(case, ctx):
         want = np.asarray(_guard(ctx, scls, P.Q2d, n, m, r, t))
         mcls = 'm=0' if m == 0 else ('m>0' if m > 0 else 'm<0')
         ref = _guard(ctx, 'ref', P.Q2d, n, m, rref, tref)
+        if m != 0 and dtype in SINGLE:
+            ref = _with_radial_amplitude(ref, dtype, _guard(ctx, 'ref', P.Q2d, n, abs(m), r, 0 * t), _guard(ctx, 'ref', P.Q2d, n, abs(m), r2, 0 * t2))
         _cmp(kept[i], want, ref, dtype, 'Q2d_seq:%s:%s' % (scls, mcls),
              'Q2d_seq(%r)[%d] vs Q2d(%d,%d) r.shape=%s %s %s' % (nms, i, n, m, shape, dtype, layout))
         _cmp(out3[i], want, ref, dtype, 'Q2d_seq:aliased-state:%s' % mcls,
@@ -648,7 +808,8 @@ def strat_xy(tier):
         'mns': xy_pairs(XY_INT_MAX if (dtype.startswith('int') or dtype in SINGLE) else N),
         'grid': st.sampled_from(['grid', 'grid', 'forced', 'free', 'free']).flatmap(lambda k: {'grid': grid, 'forced': grid_forced, 'free': free}[k]),
         'pass_flag': st.booleans(), 'dtype': st.just(dtype), 'layout': U.layouts, 'pairs_as': st.sampled_from(PAIRS_AS),
-        'history': st.sampled_from(HISTORY2), 'seed': U.seeds}))
+        'history': st.sampled_from(HISTORY2), 'seed': U.seeds,
+        'cart_as': st.sampled_from(FLAG_KINDS), 'pattern': patterns(), 'pat_on': st.sampled_from(PAT_ON)}))
 
 
 def check_xy(case, ctx):
@@ -673,18 +834,29 @@ def check_xy(case, ctx):
         shape = (ny, nx)
         cart = True
 
+    # free arrays: the pattern is imposed on the arrays; meshgrids: on the two axis vectors (repeated leading / trailing samples of an axis,
+    # i.e. an edge-padded or clipped grid that is still a meshgrid)
+    pat_x, pat_y, vcls = _pair_patterns(case, shape if not cart else (max(shape),))
+    cart_as = case.get('cart_as', 'bool')
+
     def make_coords(dt, salt):
         if not cart:
-            x, y = coords(case['seed'], shape, lo, hi, dt, salt=1 + salt), coords(case['seed'], shape, lo, hi, dt, salt=2 + salt)
+            x, y = coords(case['seed'], shape, lo, hi, dt, salt=1 + salt, pat=pat_x), coords(case['seed'], shape, lo, hi, dt, salt=2 + salt, pat=pat_y)
         else:
-            x, y = np.meshgrid(coords(case['seed'], (shape[1],), lo, hi, dt, salt=1 + salt), coords(case['seed'], (shape[0],), lo, hi, dt, salt=2 + salt))
+            x, y = np.meshgrid(coords(case['seed'], (shape[1],), lo, hi, dt, salt=1 + salt, pat=pat_x),
+                               coords(case['seed'], (shape[0],), lo, hi, dt, salt=2 + salt, pat=pat_y))
         return present(x, layout, 'array'), present(y, layout, 'array')
     scls = _shape_class(shape, k)
     zero = 'zero-exp' if any(m == 0 or n == 0 for m, n in mns) else 'no-zero-exp'
-    ctx.nt(len(shape) != 1 or k in shape or mns != sorted(mns))
-    ctx.label(scls, 'cartesian=%s' % cart, zero, 'has(0,0)' if (0, 0) in mns else 'no(0,0)')
+    ctx.nt(len(shape) != 1 or k in shape or mns != sorted(mns) or vcls != 'values:free' or cart_as != 'bool')
+    ctx.label(scls, 'cartesian=%s' % cart, zero, 'has(0,0)' if (0, 0) in mns else 'no(0,0)', vcls, 'cartesian_grid-as:' + cart_as)
+    if vcls != 'values:free':
+        scls += ':' + vcls
     _two_index_labels(ctx, dtype, layout, pairs_as, history, shape)
     kw = {'cartesian_grid': cart} if (case['pass_flag'] or not cart) else {}
+    if cart_as != 'bool':
+        kw = {'cartesian_grid': flag_as(cart, cart_as)}       # the same flag object for xy_seq and for xy
+        scls += ':cartesian_grid-given-as-' + cart_as
 
     def run(pairs, c):
         return _guard(ctx, scls, P.xy_seq, pairs, c[0], c[1], **kw)
